@@ -150,3 +150,72 @@ Definition C07_seamless_target_nu : Prop :=
                (snd res = JNil ->
                   (exists D1 D2, from_num start merged = D1 ++ D2 /\ rev (cs_stack c') = D1) \/
                   from_num start (rev (cs_stack c')) = from_num start canon).
+
+(* The same WITHOUT any agreement hypothesis between files, cursor and hub: target_on_chain is replaced by a hypothesis on
+   the cursor alone - it was minted on the chain: its LIB is a canonical block at or below its block (strictly below for an
+   Undo cursor; every cursor of a consensus-consistent reference stream is like that).  The branch of blocksThroughCursor
+   for a cursor block the hub stores OFF its current chain is covered: the hub answers with the cursor's own branch from the
+   joining block up to the cursor block - canonical blocks, the joining block itself first - and then as it answers a
+   cursor-mode consumer at that cursor (Undo down to the junction, New up to its head).  The cursor LIB matters only there
+   (blocksFromCursor serves from the cursor LIB on): a cursor whose LIB reference names a block of the hub's chain under a
+   wrong number is outside. *)
+Definition cursor_lib_on (canon : list block) (cu : cursor) (B : block) : Prop :=
+  exists Lb, In Lb canon /\ bref Lb = cu_lib cu /\ bnum Lb <= bnum B /\
+             (matches_undo (cu_step cu) = true -> bnum Lb < bnum B).
+
+Definition C07_seamless_target_nu_full : Prop :=
+  forall (U : list block) (c : jcfg) (w : world) (ps : list (N * N)) (merged_end : N) (canon forked : list block)
+         (cu : cursor) (B : block),
+    wf_b U = true -> lib_ok_b LNone U = true ->
+    hub_of_universe U c w ->
+    chain_ok canon -> incl canon U ->
+    let merged := filter (fun b => bnum b <? merged_end) canon in
+    eventual_tip c w canon ->
+    j_mode c = 2 -> j_cursor c = Some cu -> has_nu (j_filter c) (j_custom c) = true ->
+    0 < j_bundle c -> Forall (fun b => bnum b < file_bound) merged ->
+    In B canon -> bref B = cu_blk cu -> cursor_lib_on canon cu B ->
+    let res := stream_run c w ps merged_end merged forked in
+    let start := run_start c w in
+    (exists b, In b canon /\ bnum b = start) ->
+    exists c', cons_fold_aside cons0 (map as_new (filter is_nu (fst res))) = Some c' /\
+               (snd res = JNil ->
+                  (exists D1 D2, from_num start merged = D1 ++ D2 /\ rev (cs_stack c') = D1) \/
+                  from_num start (rev (cs_stack c')) = from_num start canon).
+
+(* ... in the form of C07_seamless_target (Spec/C07_Compose_Spec.v): default filter, no stop block *)
+Definition C07_seamless_target_full : Prop :=
+  forall (U : list block) (c : jcfg) (w : world) (ps : list (N * N)) (merged_end : N) (canon forked : list block)
+         (cu : cursor) (B : block),
+    wf_b U = true -> lib_ok_b LNone U = true ->
+    hub_of_universe U c w ->
+    chain_ok canon -> incl canon U ->
+    let merged := filter (fun b => bnum b <? merged_end) canon in
+    eventual_tip c w canon ->
+    j_mode c = 2 -> j_cursor c = Some cu -> j_filter c = 0 -> j_stop c = 0 ->
+    0 < j_bundle c -> Forall (fun b => bnum b < file_bound) merged ->
+    In B canon -> bref B = cu_blk cu -> cursor_lib_on canon cu B ->
+    let res := stream_run c w ps merged_end merged forked in
+    let start := run_start c w in
+    (exists b, In b canon /\ bnum b = start) ->
+    exists c', cons_fold_aside cons0 (map as_new (fst res)) = Some c' /\
+               (snd res = JNil ->
+                  (exists D1 D2, from_num start merged = D1 ++ D2 /\ rev (cs_stack c') = D1) \/
+                  from_num start (rev (cs_stack c')) = from_num start canon).
+
+(* cursor_lib_on cannot simply be dropped from C07_seamless_target_full: a (malformed) target cursor whose LIB reference names
+   a block of the hub's chain under a WRONG NUMBER - here {New, block 14, LIB (id 12, number 14)} - meets every other
+   hypothesis, and when the hub stores the cursor block off its chain blocksFromCursor serves "from the cursor LIB number
+   on": delivered are ... New 14, Undo 14, New 115 (parent 114 never delivered).  Cursors minted by a stream carry the LIB's
+   own number; this is a statement about the model only (the harness cannot craft such a cursor). *)
+Definition C07_target_cursor_lib_needed : Prop :=
+  exists (U : list block) (c : jcfg) (w : world) (ps : list (N * N)) (merged_end : N) (canon forked : list block)
+         (cu : cursor) (B : block),
+    let merged := filter (fun b => bnum b <? merged_end) canon in
+    wf_b U = true /\ lib_ok_b LNone U = true /\ hub_of_universe U c w /\
+    chain_ok canon /\ incl canon U /\ eventual_tip c w canon /\
+    j_mode c = 2 /\ j_cursor c = Some cu /\ j_filter c = 0 /\ j_stop c = 0 /\ 0 < j_bundle c /\
+    Forall (fun b => bnum b < file_bound) merged /\
+    In B canon /\ bref B = cu_blk cu /\
+    (exists Lb, In Lb canon /\ bid Lb = ri (cu_lib cu) /\ bnum Lb <= bnum B) /\
+    (exists b, In b canon /\ bnum b = run_start c w) /\
+    cons_fold_aside cons0 (map as_new (fst (stream_run c w ps merged_end merged forked))) = None.
